@@ -35,7 +35,15 @@ TRUSTED = ["models: coq/theories/Metrics.v; checkers, binary64 transcriptions an
            "tolerances: counting metrics <= 4 ulp against the exact rational reference, 1e-12 relative (to max(1,|v|)) "
            "for float-summed quantities and in the Coq Q checkers; binary64 transcriptions compared bit-exactly",
            "cross-entropy: ln supplied to the Coq model as the table of math.log values (libm) on the clipped outputs"]
-THEORIES = ["Base", "Metrics", "MetricsProofs", "C19Check"]
+THEORIES = ["Base", "Metrics", "MetricsProofs", "C19Check", "RandomPrims", "RandomPrimsProofs", "RandomPrimsProofs2", "BinaryOps", "BinaryOpsProofs",
+            "DEOps", "DEOpsProofs", "Py", "PyLemmas", "GenCode", "CodeEqC11", "CodeEqC06", "CodeEqC07", "CodeEqC19"]
+
+
+def gen(ctx):
+    """(T) regenerate gen/GenCode.v from the metric bodies in the working tree; fail closed"""
+    import translate_code as TC
+    TC.ensure(TC.C07_FUNCS + ["accuracy_score", "recall_score", "precision_score"])
+
 
 IMPORTS = "From TF Require Import Base Metrics C19Check.\nFrom Coq Require Import Floats."
 MOD = "thefittest.utils._metrics."
